@@ -73,6 +73,10 @@ dbus_bool_t bus_service_list_queued_owners (BusService *s, DBusList **ret)
   *ret = &ql[0]; return TRUE; }                                       /* enforced (B): C04.list_queued */
 dbus_bool_t _dbus_list_append (DBusList **list, void *data) { PRE (list != NULL && *list == NULL, "_dbus_list_append"); if (nondet_bool ()) return FALSE; one.data = data; one.next = one.prev = &one; *list = &one; return TRUE; }
 DBusList *_dbus_list_get_first_link (DBusList **list) { return *list; }
+/* draining variants (not used by the unchanged code): each call hands out the name at that END of what is left of the listing */
+static int q_lo, q_hi = -1;
+void *_dbus_list_pop_first (DBusList **list) { if (*list == NULL) return NULL; if (*list == &one) { *list = NULL; return one.data; } if (q_hi < 0) { q_lo = 0; q_hi = in_k; } if (q_lo >= q_hi) { *list = NULL; return NULL; } void *d = (void *) qn[q_lo++]; if (q_lo >= q_hi) *list = NULL; return d; }
+void *_dbus_list_pop_last (DBusList **list) { if (*list == NULL) return NULL; if (*list == &one) { *list = NULL; return one.data; } if (q_hi < 0) { q_lo = 0; q_hi = in_k; } if (q_lo >= q_hi) { *list = NULL; return NULL; } void *d = (void *) qn[--q_hi]; if (q_lo >= q_hi) *list = NULL; return d; }
 void _dbus_list_clear (DBusList **list) { G.clear++; *list = NULL; }
 void dbus_message_iter_init_append (DBusMessage *m, DBusMessageIter *it) { PRE (m == REPLY, "dbus_message_iter_init_append: the reply"); }
 dbus_bool_t dbus_message_iter_open_container (DBusMessageIter *it, int type, const char *sig, DBusMessageIter *sub) { PRE (type == DBUS_TYPE_ARRAY && sig[0] == 's' && sig[1] == 0 && G.open == 0, "dbus_message_iter_open_container: array of strings"); if (nondet_bool ()) return FALSE; G.open++; return TRUE; }
